@@ -214,6 +214,197 @@ theorem date_roundtrip (t : Nat) (ht : t ≤ 253402300799) : parse (compose t) =
     omega
   simp [parse, hparse]
 
+/-! ### the obsolete forms of the same instant -/
+
+/-- a two-octet separator whose first octet does not occur is not found -/
+theorem splitOnce2_clean (c d : Byte) (x : Bytes) (h : Clean c x) : splitOnce [c, d] x = none := by
+  induction x with
+  | nil => simp [splitOnce]
+  | cons a x ih =>
+    have ha : (a == c) = false := by simpa using h.head
+    simp [splitOnce, startsWith, ha, ih h.tail]
+
+theorem digit_ne_comma (n : Nat) : digit n ≠ 0x2C := by
+  have : ∀ k : Fin 10, (UInt8.ofNat (0x30 + k.val) : Byte) ≠ 0x2C := by decide
+  exact this ⟨n % 10, Nat.mod_lt _ (by omega)⟩
+
+theorem hms_no_comma (secs : Nat) : Clean 0x2C (hms secs) := by
+  intro b hb
+  simp only [hms, pad2, List.cons_append, List.nil_append, List.mem_cons, List.mem_nil_iff, or_false] at hb
+  rcases hb with h | h | h | h | h | h | h | h <;> subst h <;> first | exact digit_ne_comma _ | decide
+
+theorem alpha_ne_comma (b : Byte) (h : isAlpha b = true) : b ≠ 0x2C := by
+  revert h; revert b; apply allBytes; decide +kernel
+
+theorem month_alpha (m : Nat) (a b c : Byte) (e : monthNames.getD (m - 1) [] = [a, b, c]) (h1 : 1 ≤ m) (h2 : m ≤ 12) :
+    isAlpha a = true ∧ isAlpha b = true ∧ isAlpha c = true := by
+  have : ∀ k : Fin 12, (match monthNames.getD k.val [] with | [a, b, c] => isAlpha a && isAlpha b && isAlpha c | _ => false) = true := by
+    decide +kernel
+  have := this ⟨m - 1, by omega⟩
+  simp only [e, Bool.and_eq_true] at this
+  exact ⟨this.1.1, this.1.2, this.2⟩
+
+attribute [local irreducible] daysFromCivil in
+/-- **asctime form**: `Www Mon DD HH:MM:SS YYYY` of the instant parses back to the instant -/
+theorem asctime_roundtrip (t : Nat) (ht : t ≤ 253402300799) : parse (composeAsctime t) = .ok t := by
+  have hz : t / 86400 ≤ 2932896 := by omega
+  obtain ⟨h1, h2, h3, h4, h5, h6⟩ := civil_ranges _ hz
+  obtain ⟨a, b, c, e1, e1'⟩ := month_name _ h1 h2
+  obtain ⟨x, y, z, e2, e2'⟩ := day_name (weekday (t / 86400)) (by unfold weekday; omega)
+  obtain ⟨ma, mb, mc⟩ := month_alpha _ a b c e1 h1 h2
+  have hrt := civil_roundtrip (t / 86400)
+  generalize hcv : civilFromDays (t / 86400) = cv at *
+  have hxyz : isAlpha x = true ∧ isAlpha y = true ∧ isAlpha z = true := by
+    simp only [Bool.and_eq_true] at e2'
+    exact ⟨e2'.1.1, e2'.1.2, e2'.2⟩
+  -- the text, spelled out
+  obtain ⟨d1, d2, hd, hdv⟩ : ∃ d1 d2 : Byte, (if cv.d < 10 then [0x20, digit cv.d] else pad2 cv.d) = [d1, d2] ∧
+      (if d1 == 0x20 then dval d2 else num2 d1 d2) = some cv.d ∧ d1 ≠ 0x2C ∧ d2 ≠ 0x2C := by
+    by_cases hlt : cv.d < 10
+    · refine ⟨0x20, digit cv.d, by simp [hlt], ?_, by decide, digit_ne_comma _⟩
+      simp only [beq_self_eq_true, if_true, dval_digit]
+      congr 1; omega
+    · refine ⟨digit (cv.d / 10), digit cv.d, by simp [hlt, pad2], ?_, digit_ne_comma _, digit_ne_comma _⟩
+      have hne : (digit (cv.d / 10) == 0x20) = false := by
+        have : ∀ k : Fin 10, ((UInt8.ofNat (0x30 + k.val) : Byte) == 0x20) = false := by decide
+        exact this ⟨cv.d / 10 % 10, Nat.mod_lt _ (by omega)⟩
+      simp only [hne, Bool.false_eq_true, if_false]
+      exact num2_pad2 _ (by omega)
+  have htext : composeAsctime t = x :: y :: z :: 0x20 :: a :: b :: c :: 0x20 :: d1 :: d2 :: 0x20 ::
+      (hms (t % 86400) ++ 0x20 :: pad4 cv.y) := by
+    unfold composeAsctime
+    simp only [hcv, e1, e2, hd, List.cons_append, List.nil_append, List.append_assoc]
+  have hclean : Clean 0x2C (composeAsctime t) := by
+    rw [htext]
+    intro q hq
+    simp only [List.mem_cons, List.mem_append, pad4, List.mem_nil_iff, or_false] at hq
+    rcases hq with h | h | h | h | h | h | h | h | h | h | h | h | h | h | h | h | h
+    all_goals first
+      | (subst h; exact alpha_ne_comma _ (by first | exact hxyz.1 | exact hxyz.2.1 | exact hxyz.2.2 | exact ma | exact mb | exact mc))
+      | (subst h; decide)
+      | (subst h; exact hdv.2.1)
+      | (subst h; exact hdv.2.2)
+      | exact hms_no_comma _ q h
+      | (subst h; exact digit_ne_comma _)
+  have himf : parseImf (composeAsctime t) = .unknown := by
+    rw [htext]; simp [parseImf]
+  have h850 : parseRfc850 (composeAsctime t) = .unknown := by
+    unfold parseRfc850; rw [splitOnce2_clean 0x2C 0x20 _ hclean]
+  have hasc : parseAsctime (composeAsctime t) = .ok t := by
+    rw [htext]
+    simp only [parseAsctime, hxyz.1, hxyz.2.1, hxyz.2.2, Bool.and_self, Bool.not_true, Bool.false_eq_true, if_false]
+    have hdrop : (hms (t % 86400) ++ [0x20, digit (cv.y / 1000), digit (cv.y / 100), digit (cv.y / 10), digit cv.y]).drop 8 =
+        [0x20, digit (cv.y / 1000), digit (cv.y / 100), digit (cv.y / 10), digit cv.y] := by simp [hms, pad2]
+    have htake : (hms (t % 86400) ++ [0x20, digit (cv.y / 1000), digit (cv.y / 100), digit (cv.y / 10), digit cv.y]).take 8 =
+        hms (t % 86400) := by simp [hms, pad2]
+    simp only [pad4, hdrop, htake]
+    rw [hdv.1, e1', num4_pad4 _ (by omega), hms_roundtrip _ (Nat.mod_lt _ (by omega))]
+    have hp : pivot cv.y = cv.y := by
+      unfold pivot; have : ¬ cv.y < 100 := by omega
+      simp [this]
+    have hc : (decide (1 ≤ cv.d) && decide (cv.d ≤ 31) && decide (1970 ≤ pivot cv.y)) = true := by
+      rw [hp]; simp only [Bool.and_eq_true, decide_eq_true_eq]; omega
+    unfold finish
+    simp only []
+    rw [if_pos hc, hp]
+    unfold timegm
+    have e : ({ y := cv.y, m := cv.m, d := cv.d } : Civil) = cv := rfl
+    rw [e, hrt]
+    congr 1
+    omega
+  simp [parse, himf, h850, hasc]
+
+theorem splitOnce2_append (c d : Byte) (x r : Bytes) (h : Clean c x) :
+    splitOnce [c, d] (x ++ c :: d :: r) = some (x, r) := by
+  induction x with
+  | nil => simp [splitOnce, startsWith]
+  | cons a x ih =>
+    have ha : (a == c) = false := by simpa using h.head
+    simp [splitOnce, startsWith, ha, ih h.tail]
+
+def longOk (k : Nat) : Bool :=
+  match longDayNames.getD k [] with
+  | w1 :: w2 :: w3 :: w4 :: r => isAlpha w1 && isAlpha w2 && isAlpha w3 && isAlpha w4 && r.all isAlpha
+  | _ => false
+
+theorem long_name (k : Nat) (h : k < 7) :
+    ∃ w1 w2 w3 w4 r, longDayNames.getD k [] = w1 :: w2 :: w3 :: w4 :: r ∧
+      isAlpha w1 = true ∧ isAlpha w2 = true ∧ isAlpha w3 = true ∧ isAlpha w4 = true ∧ r.all isAlpha = true := by
+  have : ∀ k : Fin 7, longOk k.val = true := by decide +kernel
+  have := this ⟨k, h⟩
+  simp only [longOk] at this
+  split at this
+  · rename_i w1 w2 w3 w4 r e
+    simp only [Bool.and_eq_true] at this
+    exact ⟨w1, w2, w3, w4, r, e, this.1.1.1.1, this.1.1.1.2, this.1.1.2, this.1.2, this.2⟩
+  · cases this
+
+attribute [local irreducible] daysFromCivil in
+/-- **RFC 850 form**: `Weekday, DD-Mon-YY HH:MM:SS GMT` of an instant whose year the two-digit year can express
+    (1970–2068, the window of `parsedate_tz`) parses back to the instant -/
+theorem rfc850_roundtrip (t : Nat) (ht : t ≤ 253402300799) (hy : (civilFromDays (t / 86400)).y ≤ 2068) :
+    parse (composeRfc850 t) = .ok t := by
+  have hz : t / 86400 ≤ 2932896 := by omega
+  obtain ⟨h1, h2, h3, h4, h5, h6⟩ := civil_ranges _ hz
+  obtain ⟨a, b, c, e1, e1'⟩ := month_name _ h1 h2
+  obtain ⟨w1, w2, w3, w4, wr, e2, a1, a2, a3, a4, ar⟩ := long_name (weekday (t / 86400)) (by unfold weekday; omega)
+  have hrt := civil_roundtrip (t / 86400)
+  generalize hcv : civilFromDays (t / 86400) = cv at *
+  have hw4 : w4 ≠ 0x2C := alpha_ne_comma w4 a4
+  have hwclean : Clean 0x2C (w1 :: w2 :: w3 :: w4 :: wr) := by
+    intro q hq
+    simp only [List.mem_cons] at hq
+    rcases hq with h | h | h | h | h
+    · subst h; exact alpha_ne_comma _ a1
+    · subst h; exact alpha_ne_comma _ a2
+    · subst h; exact alpha_ne_comma _ a3
+    · subst h; exact hw4
+    · exact alpha_ne_comma q (by simpa using (List.all_eq_true.mp ar) q h)
+  have htext : composeRfc850 t = (w1 :: w2 :: w3 :: w4 :: wr) ++ 0x2C :: 0x20 ::
+      (digit (cv.d / 10) :: digit cv.d :: 0x2D :: a :: b :: c :: 0x2D :: digit (cv.y % 100 / 10) :: digit (cv.y % 100) :: 0x20 ::
+        (hms (t % 86400) ++ sGMT)) := by
+    unfold composeRfc850
+    simp only [hcv, e1, e2, pad2, List.cons_append, List.nil_append, List.append_assoc]
+  have himf : parseImf (composeRfc850 t) = .unknown := by
+    rw [htext]
+    simp only [List.cons_append, parseImf]
+    split
+    · rename_i heq
+      simp only [List.cons.injEq] at heq
+      exact absurd heq.2.2.2.1 hw4
+    · rfl
+  have h850 : parseRfc850 (composeRfc850 t) = .ok t := by
+    rw [htext]
+    unfold parseRfc850
+    rw [splitOnce2_append 0x2C 0x20 _ _ hwclean]
+    have hall : (w1 :: w2 :: w3 :: w4 :: wr).all isAlpha = true := by simp [a1, a2, a3, a4, ar]
+    simp only [List.isEmpty_cons, hall, Bool.not_true, Bool.or_self, Bool.false_eq_true, if_false]
+    have hlen : (hms (t % 86400) ++ sGMT).length = 12 := by simp [hms, pad2, sGMT]
+    have hdrop : (hms (t % 86400) ++ sGMT).drop 8 = sGMT := by simp [hms, pad2]
+    have htake : (hms (t % 86400) ++ sGMT).take 8 = hms (t % 86400) := by simp [hms, pad2]
+    simp only [hlen, hdrop, htake, bne_self_eq_false, Bool.or_self, Bool.false_eq_true, if_false]
+    rw [num2_pad2 _ (by omega), e1', num2_pad2 _ (by omega), hms_roundtrip _ (Nat.mod_lt _ (by omega))]
+    have hp : pivot (cv.y % 100) = cv.y := by
+      unfold pivot
+      have : cv.y % 100 < 100 := Nat.mod_lt _ (by omega)
+      simp only [this, if_true]
+      split <;> omega
+    have hc : (decide (1 ≤ cv.d) && decide (cv.d ≤ 31) && decide (1970 ≤ pivot (cv.y % 100))) = true := by
+      rw [hp]; simp only [Bool.and_eq_true, decide_eq_true_eq]; omega
+    unfold finish
+    simp only []
+    rw [if_pos hc, hp]
+    unfold timegm
+    have e : ({ y := cv.y, m := cv.m, d := cv.d } : Civil) = cv := rfl
+    rw [e, hrt]
+    congr 1
+    omega
+  simp [parse, himf, h850]
+
+/-- outside that window the two-digit year cannot name the instant: 2069-01-01 written in RFC 850 form reads as 1969 -/
+theorem rfc850_window_witness : parse (composeRfc850 3124224000) ≠ .ok 3124224000 := by
+  decide +kernel
+
 /-- the weekday named is the weekday of the date: 1970-01-01 was a Thursday and the names advance with the days -/
 theorem weekday_correct (days : Nat) :
     weekday 0 = 3 ∧ weekday (days + 1) = (weekday days + 1) % 7 ∧ weekday (days + 7) = weekday days := by
